@@ -18,8 +18,10 @@ TRUSTED = ["filesystem semantics of os.Create/Rename/Remove", "generated file co
 ASSUMPTIONS = ["namespaces and names are DNS-1123 (no '_' and no '/')"]
 LEVEL_TEXT = ("Lean 4 theorems: VirtualServer and TransportServer file names are injective in (namespace, name) over names without '_' and the two "
               "families (and Ingress files) are disjoint; delete-by-key addresses exactly the file written by-meta; for every operation sequence "
-              "the directory equals the image of the served set under the file-name function as long as the names involved do not collide "
-              "(files_eq_served), and deleting a resource removes its own file and nothing else. The Ingress file name ns-name is proved NOT "
+              "(restarts included) and every file name the content of that file in conf.d / stream-conf.d is the fold of the effects of exactly the operations "
+              "that map to that name — the last add that maps to it, absent after a later delete that maps to it (files_eq_served, no_file_without_add), which with the "
+              "injectivity theorems is one file per served resource as long as the names involved do not collide; deleting a resource removes its own file and nothing else; "
+              "the batch path of TransportServers removes what the single delete removes (batchTs_removes). The Ingress file name ns-name is proved NOT "
               "injective (witness a-b/c vs a/b-c) — a recorded finding — and injective for a fixed namespace."
               ' Source tie: the six file-name functions are translated from /repo on every run and proved equal to the file-name model (Props/TieNames.lean: ingFile_tie … tsFileKey_tie, vs_key_meta_agree).')
 LEVEL_NOTE = "Assurance = weaker of (theorems about the model, correspondence with the real Configurator+LocalManager on a real directory)."
